@@ -58,6 +58,18 @@ theorem readfs_open_delegates_iff (flag : BitVec 32) :
     rw [← this.1]; exact this.2
   · intro h; exact ⟨flag, readonly_open_delegated_unchanged flag h⟩
 
+/-- Wrapping twice is wrapping once: what a `ReadFS` passes on is passed on unchanged by a second `ReadFS` around the
+wrapped FS, and what the first refuses never reaches the second (a read-only mount of a read-only mount neither
+widens nor narrows what the guest can open). -/
+theorem readfs_open_idempotent (flag : BitVec 32) :
+    (ReadFS_OpenFile flag >>= ReadFS_OpenFile) = ReadFS_OpenFile flag := by
+  cases h : ReadFS_OpenFile flag with
+  | error e => rfl
+  | ok f =>
+    have := readfs_open_passes_only_readonly flag f h
+    show ReadFS_OpenFile f = .ok f
+    exact readonly_open_delegated_unchanged f this.2
+
 /-- non-vacuity: plain `O_RDONLY`, and `O_RDONLY|O_DIRECTORY|O_NOFOLLOW`, are delegated. -/
 example : ReadFS_OpenFile O_RDONLY = .ok O_RDONLY := by decide
 example : ReadFS_OpenFile (O_DIRECTORY ||| O_NOFOLLOW) = .ok (O_DIRECTORY ||| O_NOFOLLOW) := by decide
